@@ -48,7 +48,7 @@ def race_rounds(rng, thorough):
     rounds = []
     for n in range(9, 49 if thorough else 41):        # calls with more arguments than any earlier call of the process
         rounds.append({"warm": "nil.try.{\\%d}" % n, "prog": "{[\\1, \\%d]}(%s)" % (n, ", ".join(map(str, range(1, n + 1))))})
-    for k in range(160 if thorough else 48):
+    for k in range(240 if thorough else 96):
         t = f"r{k}_{rng.randint(0, 10**6)}"
         kind = k % 8
         if kind == 0:      # one symbol, interned earlier, converted back by all and hashed / compared / used as a key for the first time
@@ -207,7 +207,7 @@ def run():
         resp, reports = pvlib.run_race_driver({"n": ngor, "progs": progs, "rounds": rounds, "http": http, "http2": http2})
         if resp.get("end") != "ok":
             end = resp.get("end", "")
-            if "concurrent map" in end or "fatal error" in end:
+            if "fatal error: concurrent map" in end:      # the Go runtime's own detection of unsynchronised map access: the property's fault itself
                 ck.reject("C20:fatal:concurrent-map", end[-600:], {"n": ngor, "end": end[-2000:]})
                 continue
             raise pvlib.Broken(f"race driver failed: {end[-800:]}")
